@@ -118,6 +118,9 @@ def dispatch(ctx):
             v = v.func.value
         if isinstance(v, ast.Subscript) and isinstance(v.slice, ast.Constant) and v.slice.value == 0 and isinstance(s.targets[0], ast.Name):
             name_var = s.targets[0].id
+    if name_var is None and isinstance(loop.target, ast.Tuple) and len(loop.target.elts) == 2 and all(isinstance(e, ast.Name) for e in loop.target.elts):
+        # `for name, arguments in REGEX_TRANSFORM_TEMPLATE.findall(...)`: the two groups unpacked in the loop header
+        name_var = loop.target.elts[0].id
     ctx.need(name_var is not None, "R04.1", "Matrix.parse: name variable not found")
     branches = {}
     for test, body in if_chain(chain_if[0]):
